@@ -380,7 +380,7 @@ pub fn run(ctx: &Ctx) -> Result<Run, String> {
     }
     {
         use super::inst::{self, IOp};
-        let alphabet = [IOp::Get { who: 0, prf: false, silent: false }, IOp::Get { who: 0, prf: true, silent: false }, IOp::Get { who: 0, prf: false, silent: true }, IOp::Get { who: 1, prf: false, silent: false }, IOp::Get { who: 4, prf: true, silent: false }, IOp::Make { rk: true, prf: true }, IOp::Cancelled(1), IOp::TraitGet { who: 0 }];
+        let alphabet = [IOp::Get { who: 0, prf: false, silent: false }, IOp::Get { who: 0, prf: true, silent: false }, IOp::Get { who: 0, prf: false, silent: true }, IOp::Get { who: 1, prf: false, silent: false }, IOp::Get { who: 4, prf: true, silent: false }, IOp::Make { rk: true, prf: true }, IOp::Cancelled(1), IOp::TraitGet { who: 0 }, IOp::Synced(2)];
         let st = inst::sweep(&alphabet, ctx.tier.pick(3, 4), &[0, 1], ctx.threads, "instance");
         out.transitions += st.evaluations;
         out.stats.count("instance_differential_histories", st.evaluations);
